@@ -142,40 +142,47 @@ Hypothesis Hl : length v = length w.
 Definition dk (k : nat) : R := dot_raw (A := ARnd) (slice_of v t k) (slice_of w t k).
 Definition Sk (k : nat) : R := dot_raw (A := AR) (slice_of v t k) (slice_of w t k).
 Definition Mk (k : nat) : R := dot_raw (A := AR) (map Rabs (slice_of v t k)) (map Rabs (slice_of w t k)).
-Definition Bnd : R := pw (length v + t + 1) - 1.
+(* the longest chunk is the last one *)
+Definition Lmax : nat := length v - (t - 1) * (length v / t).
+Definition Bnd : R := pw (Lmax + t + 1) - 1.
 
 Lemma Mk_nonneg k : 0 <= Mk k.
 Proof. unfold Mk. rewrite dotR_Rsum, <- combine_map_abs. apply Rsum_abs_nonneg. Qed.
 
-Lemma slice_len_le k : (length (combine (slice_of v t k) (slice_of w t k)) <= length v)%nat.
+Lemma slice_len_le k : (k < t)%nat -> (length (combine (slice_of v t k) (slice_of w t k)) <= Lmax)%nat.
 Proof.
-  rewrite combine_length. unfold slice_of. destruct (chunk_bounds (length v) t k) as [s e].
-  rewrite firstn_length, skipn_length. lia.
+  intros Hk. rewrite combine_length. unfold slice_of, Lmax. rewrite <- Hl. unfold chunk_bounds.
+  pose proof (chunk_mul_le (length v) t) as Hc. set (c := (length v / t)%nat) in *.
+  rewrite !firstn_length, !skipn_length.
+  assert (Hd : (t * c = (t - 1) * c + c)%nat) by (destruct t; [lia|cbn; lia]).
+  destruct (Nat.eqb_spec k (t - 1)) as [->|Hne]; [lia|].
+  assert (((k + 1) * c - k * c = c)%nat) by nia. lia.
 Qed.
 
 (* one partial sum after main's additions: d_k g against the exact chunk sum *)
-Lemma chunk_error k g : Rabs (g - 1) <= pw t - 1 -> Rabs (dk k * g - Sk k) <= Bnd * Mk k.
+Lemma chunk_error k g : (k < t)%nat -> Rabs (g - 1) <= pw t - 1 -> Rabs (dk k * g - Sk k) <= Bnd * Mk k.
 Proof.
-  intros Hg. unfold dk, Sk, Mk, Bnd.
+  intros Hk Hg. unfold dk, Sk, Mk, Bnd.
   destruct (dot_rnd_factors (slice_of v t k) (slice_of w t k)) as (fs & HL & HF & E). rewrite E.
   rewrite Rmult_comm, <- wsum_scale, !dotR_Rsum, <- combine_map_abs.
   apply wsum_err; [now rewrite !map_length|].
   apply Forall_forall. intros f Hf. apply in_map_iff in Hf as (f' & <- & Hf').
   rewrite Forall_forall in HF. specialize (HF f' Hf'). cbv beta in HF.
   apply (fac_weaken u u_range _ (t + S (length (combine (slice_of v t k) (slice_of w t k))))).
-  - pose proof (slice_len_le k). lia.
+  - pose proof (slice_len_le k Hk). lia.
   - now apply fac_mul.
 Qed.
 
-Lemma main_error (ks : list nat) : forall gs, length gs = length ks -> Forall (bnd t) gs ->
+Lemma main_error (ks : list nat) : Forall (fun k => (k < t)%nat) ks ->
+  forall gs, length gs = length ks -> Forall (bnd t) gs ->
   Rabs (wsum (map dk ks) gs - Rsum (map Sk ks)) <= Bnd * Rsum (map Mk ks).
 Proof.
-  induction ks as [|k ks IH]; intros [|g gs] HL HF; cbn [length] in HL; try discriminate; cbn [map wsum Rsum].
+  induction 1 as [|k ks Hk Hks IH]; intros [|g gs] HL HF; cbn [length] in HL; try discriminate; cbn [map wsum Rsum].
   - replace (0 - 0) with 0 by ring. rewrite Rabs_R0. lra.
   - inversion HF as [|? ? Hg HF']; subst. specialize (IH gs ltac:(lia) HF').
     replace (dk k * g + wsum (map dk ks) gs - (Sk k + Rsum (map Sk ks)))
       with ((dk k * g - Sk k) + (wsum (map dk ks) gs - Rsum (map Sk ks))) by ring.
-    eapply Rle_trans; [apply Rabs_triang|]. pose proof (chunk_error k g Hg). lra.
+    eapply Rle_trans; [apply Rabs_triang|]. pose proof (chunk_error k g Hk Hg). lra.
 Qed.
 
 Lemma chunks_exact (x y : list R) : length x = length y ->
@@ -209,8 +216,12 @@ Proof.
   rewrite <- (chunks_exact (map Rabs v) (map Rabs w)) by (rewrite !map_length; exact Hl).
   rewrite (map_ext (fun k => dot_raw (A := AR) (slice_of (map Rabs v) t k) (slice_of (map Rabs w) t k)) Mk)
     by (intros k; unfold Mk; now rewrite !slice_of_map).
-  apply main_error; [now rewrite seq_length|exact HF].
+  apply main_error; [|now rewrite seq_length|exact HF].
+  apply Forall_forall. intros k Hk. apply in_seq in Hk. lia.
 Qed.
+
+Lemma Lmax_le : (Lmax <= length v)%nat.
+Proof. unfold Lmax. lia. Qed.
 
 End Chunks.
 
@@ -235,6 +246,23 @@ Lemma pardot_forward_error_ex (u : R) (Hu : 0 <= u <= 1) (fadd fsub fmul fdiv : 
   exists r, pardot (A := ARnd fadd fsub fmul fdiv) t v w = Ok r /\
     Rabs (r - dot_raw (A := AR) v w)
     <= ((1 + u) ^ (length v + t + 1) - 1) * dot_raw (A := AR) (map Rabs v) (map Rabs w).
+Proof.
+  intros Ht Hl.
+  destruct (pardot_forward_error_lemma u Hu fadd fsub fmul fdiv Hadd Hmul v w t Ht Hl) as (r & Er & Br).
+  exists r. split; [exact Er|]. eapply Rle_trans; [exact Br|]. apply Rmult_le_compat_r.
+  - rewrite dotR_Rsum, <- combine_map_abs. apply Rsum_abs_nonneg.
+  - unfold Bnd. pose proof (pw_mono u Hu (Lmax v t + t + 1) (length v + t + 1)) as H.
+    unfold BandedDet2Round.pw in *. assert (Lmax v t <= length v)%nat by (unfold Lmax; lia). apply Rplus_le_compat_r. apply H. lia.
+Qed.
+
+(* the tight form: the exponent is (longest chunk) + t + 1, about len/t + t instead of len *)
+Lemma pardot_forward_error_tight_ex (u : R) (Hu : 0 <= u <= 1) (fadd fsub fmul fdiv : R -> R -> R)
+  (Hadd : forall x y, exists d, Rabs d <= u /\ fadd x y = (x + y) * (1 + d))
+  (Hmul : forall x y, exists d, Rabs d <= u /\ fmul x y = x * y * (1 + d))
+  (t : nat) (v w : list R) : (1 <= t)%nat -> length v = length w ->
+  exists r, pardot (A := ARnd fadd fsub fmul fdiv) t v w = Ok r /\
+    Rabs (r - dot_raw (A := AR) v w)
+    <= ((1 + u) ^ ((length v - (t - 1) * (length v / t)) + t + 1) - 1) * dot_raw (A := AR) (map Rabs v) (map Rabs w).
 Proof. intros Ht Hl. exact (pardot_forward_error_lemma u Hu fadd fsub fmul fdiv Hadd Hmul v w t Ht Hl). Qed.
 
 Lemma dot_forward_error_ex (u : R) (Hu : 0 <= u <= 1) (fadd fsub fmul fdiv : R -> R -> R)
